@@ -995,3 +995,18 @@ V("intersect pulls the conic back by a sum instead of a product", "C14", CURVE, 
   "                b = matmul(m, self.array, transpose_a=True) + matmul(self.array, m)", "E19.isect", "QuadricTensor.intersect")
 V("twin: intersect with the skew matrix untransposed and the sign restored", "C14", CURVE, "                b = matmul(matmul(m, self.array, transpose_a=True), m)",
   "                b = -matmul(matmul(m, self.array), m)", "silent")
+
+
+# ------------------------------------------------------------------------------------------------ perpendiculars and the foot of the perpendicular (E19.metric, C10)
+V("perpendicular through a point of the line takes the wrong two coefficients as the normal", "C10", POINT,
+  "                np.append(l.array[..., :-1], np.zeros(l.shape[:-1] + (1,), dtype=l.dtype), axis=-1)",
+  "                np.append(l.array[..., 1:], np.zeros(l.shape[:-1] + (1,), dtype=l.dtype), axis=-1)", "E19.metric", "LineTensor.perpendicular", quick=True)
+V("perpendicular through a point off the line is the parallel", "C10", POINT, "                result[~contains] = self.mirror(through).join(through)",
+  "                result[~contains] = self.parallel(through)", "E19.metric", "LineTensor.perpendicular")
+V("project meets the perpendicular with the parallel through the point", "C10", POINT, "        l = self.perpendicular(pt)\n        return self.meet(l)",
+  "        l = self.perpendicular(pt)\n        return l.meet(self.parallel(pt))", "E19.metric", "SubspaceTensor.project")
+V("twin: project with the operands of meet exchanged", "C10", POINT, "        l = self.perpendicular(pt)\n        return self.meet(l)",
+  "        l = self.perpendicular(pt)\n        return l.meet(self)", "silent")
+V("perpendicular to a plane from the last three coefficients", "C10", POINT, "        p = self.array[..., :-1]\n        p = PointCollection.from_array(np.append(p, np.zeros(p.shape[:-1] + (1,), dtype=p.dtype), axis=-1))",
+  "        p = self.array[..., 1:]\n        p = PointCollection.from_array(np.append(p, np.zeros(p.shape[:-1] + (1,), dtype=p.dtype), axis=-1))", "E19.metric", "PlaneTensor.perpendicular")
+V("twin: perpendicular to a plane with the join written as a function call", "C10", POINT, "        return through.join(p)", "        return join(through, p)", "silent")
